@@ -40,6 +40,9 @@ func (s *segmentTimelineGenerator) addSegmentData(log *slog.Logger, item recSegD
 	trName := item.name
 	if _, ok := s.segDataBuffers[trName]; !ok {
 		s.segDataBuffers[trName] = newSegDataBuffer(s.windowSize)
+		if s._started { // a track that delivers its first segment after the start counts from now on
+			s._nrTracks = uint32(len(s.segDataBuffers))
+		}
 	}
 	err = s.segDataBuffers[trName].add(item)
 	if err != nil {
